@@ -1330,14 +1330,26 @@ fn family_c13(ctx: &mut Ctx) {
         let a = originals(ctx.seed, 1000 + ci as u64 * 3, k, sb);
         let b = originals(ctx.seed, 1001 + ci as u64 * 3, k, sb);
         let ab = xor_shards(&a, &b);
+        // every third group: each round is the SECOND round of an encoder that coded other data before (no reset in
+        // between) - the map must still be the same linear map
+        let second = ci % 3 == 1 && kd.is_some() && k + r <= 400;
+        let prior = |ctx: &mut Ctx, n: u64| {
+            if second {
+                ctx.prior = Some(originals(ctx.seed, 0x13F0 + ci as u64 * 4 + n, k, sb));
+            }
+        };
+        prior(ctx, 0);
         let (la, _) = enc_event(ctx, e, kd, k, r, &a, None, false);
+        prior(ctx, 1);
         let (lb, _) = enc_event(ctx, e, kd, k, r, &b, None, false);
+        prior(ctx, 2);
         let (lab, _) = enc_event(ctx, e, kd, k, r, &ab, None, false);
         let here = ctx.trace.lines as i64 + 1;
         ctx.trace.line(&Obj::new().str("ev", "lin").int("g", ci as i64).int("a", la as i64 - here).int("b", lb as i64 - here).int("ab", lab as i64 - here).done());
         // scalar multiple
         let c: u16 = if ci % 7 == 0 { 1 } else { rng.gen_range(2..=u16::MAX) };
         let ca = scale_shards(&a, c);
+        prior(ctx, 3);
         let (lca, _) = enc_event(ctx, e, kd, k, r, &ca, None, false);
         let here = ctx.trace.lines as i64 + 1;
         ctx.trace.line(&Obj::new().str("ev", "scal").int("g", ci as i64).int("a", la as i64 - here).int("ca", lca as i64 - here).int("c", i64::from(c)).done());
